@@ -35,6 +35,20 @@ def _worker_task(task):
     from .api import SymS, plain  # pylint: disable=import-outside-toplevel
 
     job_index, spec, props, stack, max_paths, timeout_ms, deadline = task
+    try:
+        return _worker_task_inner(task)
+    except BaseException as e:  # pylint: disable=broad-except
+        # a BaseException escaping a pool worker kills it and the pool then waits forever for the lost task
+        import traceback  # pylint: disable=import-outside-toplevel
+
+        raise RuntimeError("worker failed on job %d: %s: %s\n%s" % (job_index, type(e).__name__, e, traceback.format_exc()[-1500:])) from None
+
+
+def _worker_task_inner(task):
+    from . import engine, loader  # pylint: disable=import-outside-toplevel
+    from .api import SymS, plain  # pylint: disable=import-outside-toplevel
+
+    job_index, spec, props, stack, max_paths, timeout_ms, deadline = task
     mod = _W["mod"]
     samples = []
     funcs = set()
@@ -249,6 +263,13 @@ def _replay_batch(items, timeout=600):
         shutil.rmtree(d, ignore_errors=True)
 
 
+def _msgkey(msg):
+    """coarse identity of an error message: digits and quoted data removed"""
+    import re  # pylint: disable=import-outside-toplevel
+
+    return re.sub(r"[0-9]+|<[^>]*>|⟨[^⟩]*⟩", "#", str(msg))[:60]
+
+
 def load_known():
     path = os.path.join(VERIF, "known_findings.json")
     if not os.path.exists(path):
@@ -296,7 +317,7 @@ def finish(res, max_replays_per_kind=3):
                 cands.append((ji, v))
         for pb in st.problems:
             if pb["status"] == "exception" and pb.get("model") is not None:
-                key = (ji, "exception:" + pb["type"], None)
+                key = (ji, "exception:" + pb["type"], _msgkey(pb.get("msg", "")))
                 seen[key] = seen.get(key, 0) + 1
                 if seen[key] <= max_replays_per_kind:
                     cands.append((ji, {"prop": prop, "kind": "exception:" + pb["type"], "msg": pb["msg"], "model": pb["model"], "data": {}, "trace": pb.get("trace"), "is_exception": True}))
@@ -445,7 +466,7 @@ def finish(res, max_replays_per_kind=3):
 COMMON_ASSUMPTIONS = [
     "rp2.* modules are loaded from /repo/src with two AST rewrites only (decimal -> symbolic substrate, f-strings -> structured strings)",
     "Configuration.type_check_timestamp_from_string is stubbed for symbolic timestamps (dateutil outside the encoding)",
-    "logging disabled; cwd is a scratch directory",
+    "logging disabled; cwd is a scratch directory; the warning-only consistency checks of the In/OutTransaction constructors (is_equal_within_precision deciding whether to log) are answered 'equal' on symbolic operands",
     "Python's decimal add/sub/mul are exact when the result has <= 31 digits (value ranges keep compared products inside), division/quantize correctly rounded",
     "solver verdicts are bounded by the skeletons, window and value ranges listed under coverage.bounds; nothing is claimed outside them",
 ]
